@@ -43,6 +43,24 @@ def run(chk, repo, tier):
     chk.depends_on += ["C05", "C07", "C10", "C11"]
     if not is_prime(r):
         raise AnalysisError("oracle r not prime")
+    # the rewrite decode(encode(P)) = P used by R4/R5: the encoder and decoder obligations of C11 re-stated (an honest key or
+    # signature that does not decode to the point it encodes is rejected by Verify)
+    chk.rule("C01.R8", "decode(encode(P)) = P for the keys and signatures the ciphersuites produce: C11's decoder tables, sign "
+                       "selection and encoder obligations re-stated", 40)
+    from . import C11 as _dep_C11
+    from ..report import SubCheck as _SubCheck
+    _sub = _SubCheck()
+    _err = None
+    try:
+        _dep_C11.run(_sub, repo, tier)
+    except AnalysisError as _e:
+        _err = _e
+    _known = {(f["rule"], f["construct"], f["key"]) for f in chk.known.get("findings", []) if f["property"] == "C11"}
+    for _rule, _construct, _key, _ok, _detail, _where in _sub.obs:
+        if (_rule, _construct, _key) not in _known:
+            chk.ob("C01.R8", _construct, f"[{_rule}] {_key}", _ok, _detail, _where)
+    if _err is not None and all(o[3] for o in _sub.obs):
+        raise _err
     M = Model(repo, "P")
     names = {r: "r", 0: "0"}
     # ------------------------------------------------------------------ R1
@@ -167,7 +185,7 @@ def run(chk, repo, tier):
                 continue
             for p in acc:
                 ver_h = [ev for ev in p.events if ev["kind"] == "hash_to_G2"]
-                st = {(ev["msg"], ev["dst"], ev["hfn"]) for ev in sign_h if ev["caller"] and "_CoreSign" in ev["caller"]}
+                st = {(ev["msg"], ev["dst"], ev["hfn"]) for ev in sign_h}
                 vt = {(ev["msg"], ev["dst"], ev["hfn"]) for ev in ver_h}
                 ok = len(st) == 1 and st == vt
                 chk.ob("C01.R4", construct, "same (message term, tag, hash) on both sides", ok,
